@@ -255,7 +255,7 @@ async fn check_cut(rep: &mut Report, args: &Args, c: &mut Case, cut: u64, prop: 
     let mut model = c.models[j].clone();
     let mut rng = Rng::new(c.seed ^ cut);
     let opts = GenOpts { wrong_pct: 0, max_events: 3, big_payload_pct: 0, max_payload: 0, key_conflict_pct: 0 };
-    let mut g = Gen { ids: Ids { counter: c.tgen.ids.counter + 1_000_000 + cut * 16 }, keys: c.tgen.keys.clone(), streams_per_key: c.tgen.streams_per_key, op_counter: c.tgen.op_counter + 1_000_000 };
+    let mut g = Gen { ids: Ids { counter: c.tgen.ids.counter + 1_000_000 + cut * 16 }, keys: c.tgen.keys.clone(), streams_per_key: c.tgen.streams_per_key, op_counter: c.tgen.op_counter + 1_000_000, only_key: None };
     let mut bad = false;
     for _ in 0..(3 * c.cfg.partitions as usize + 2) {
         let t = g.txn(&mut rng, &model, &opts);
